@@ -35,6 +35,11 @@ let () =
         outcome_s (fun v -> [Sexp.to_string (value_to v)])
           (eval_expr_impl (int_field ns <> 0) (nat_of_int (int_field fuel)) n)
     | _ -> failwith "c06_eval: arity");
+  (* c06_reg_ok <key> -> #1 / #0 : the decidable hypothesis of render_no_escape on a loaded registry *)
+  register "c06_reg_ok" (fun a ->
+    match a with
+    | [key] -> [bool_s (reg_ok (Hashtbl.find Ops_interp.registries key))]
+    | _ -> failwith "c06_reg_ok: arity");
   (* c06_trim <hex> -> hex   (strings.TrimSpace) *)
   register "c06_trim" (fun a ->
     match a with [s] -> [hex_of_bstr (trim_space (bstr_of_hex s))] | _ -> failwith "c06_trim: arity");
